@@ -12,14 +12,20 @@ import (
 )
 
 func main() {
-	r := vkit.Start("exploration")
+	// C42 enumerates faults; the level must be known before Start parses the flags
+	level := "exploration"
+	for i, a := range os.Args {
+		if a == "-prop=C42" || a == "--prop=C42" || ((a == "-prop" || a == "--prop") && i+1 < len(os.Args) && os.Args[i+1] == "C42") {
+			level = "fault_enumeration"
+		}
+	}
+	r := vkit.Start(level)
 	r.Assume("peer = Go crypto/tls client of this toolchain (TLS1.0-1.2, no SSLv3, no session-id resumption) plus hand-written ClientHellos; SSLv3 is only observed up to the ServerHello")
 	r.Assume("server certificates: one RSA-2048 and one ECDSA P-256, generated at run time; transport is an in-memory buffered pipe (no TCP)")
 	switch r.Prop {
 	case "C41":
 		c41(r)
 	case "C42":
-		r.Level = "fault_enumeration"
 		c42(r)
 	case "C44":
 		c44(r)
